@@ -269,7 +269,7 @@ CHECKS["C03"] = {
             "deadline (504 / truncated stream), upgraded connections are closed at exactly the drain start, late and later traffic "
             "never reaches a drained target (until resume). Non-trivial = a drain with >=1 request in flight or >=1 late arrival. "
             "Distinct by plan hash.",
-    "layers": [L("TestVF_C03", 1200, 15000)],
+    "layers": [L("TestVF_C03", 1200, 15000), L("TestVF_C03_DrainAtomicity", 1500, 20000)],
     "technique": "property-based testing (rapid) on a virtual clock with exact-instant oracles from the fake targets' logs; known-finding interleavings injected through the schedule hooks",
     "level_text": "Bounded random exploration; deadlines are compared exactly, ties accepted either way.",
     "level_note": "Trusts synctest's clock, the in-memory network and the fake targets' logs.",
